@@ -46,6 +46,16 @@ AlreadyCalledError there is caught inside the canceller and logged; a Deferred i
 it), call cancel() on the next one, or fire its own Deferred and then raise.  The model runs those
 effects at the point of the canceller call, before deciding whether CancelledError is still due.
 
+Re-entrant late fire: in the kinds "none+re" / "none+reeb" (no canceller) and "nothing+re" (canceller
+that does nothing) the Deferred carries, right after its recorder, a callback that reacts to a
+CancelledError result by firing ITS OWN Deferred at once - callback() resp. errback(), i.e. the producer
+that is told to stop flushes its result while cancel() is still running the chain - records whether the
+call raised AlreadyCalledError, and passes the failure on.  By the statement the call is the "one later
+callback or errback" after a canceller-less cancel(): silently ignored (model S -> F, so the next one
+raises AlreadyCalledError); with a canceller, or when the CancelledError arrived from a Deferred it
+waited on / was chained from, the Deferred is simply fired and the call raises AlreadyCalledError (key
+`late-fire-during-cancel-not-ignored` / `late-fire-during-cancel-ignored-wrongly`).
+
 Guards: for a canceller that RAISES the statement is silent.  Accepted: the exception propagates
 out of cancel() and the Deferred stays unfired (what the code does), or it is swallowed and the
 Deferred fails with CancelledError; required in both cases: canceller called exactly once per
@@ -71,7 +81,10 @@ RULE = ("all histories of length L (every shorter one is a prefix and is checked
         "L=4 quick / L=5 (two of them L=6) thorough; four-level chain x 2 configurations at L=5 thorough.  "
         "Plus E1 depth-first exploration with state pruning to length 12 / 16 over all 13 "
         "two-level, 40 three-level (8 with re-entrant cancellers) and 2 quick / 6 thorough four-level "
-        "configurations (cancel forwarded through three levels).  Pause/chainDeferred family: the alphabet "
+        "configurations (cancel forwarded through three levels).  Re-entrant late fire (a callback of the "
+        "Deferred answers CancelledError by firing that same Deferred): two-level x 4 configurations at L=4 "
+        "quick / L=5 thorough, three-level x 2 at L=4 / L=5, one pause/chainDeferred two-level one at L=4, "
+        "plus pruned exploration of all seven.  Pause/chainDeferred family: the alphabet "
         "extended by pause_k / unpause_k (at most 2 outstanding) and chn_k = d_{k+1}.chainDeferred(d_k) "
         "(excludes wait_k): two-level x 4 configurations at L=4 quick / L=5 thorough, three-level 'lite' "
         "(no errbacks, one outstanding pause) x 2 configurations at L=4 / L=5, plus pruned exploration to "
@@ -91,7 +104,9 @@ FLOORS = {"steps_compared": 1000000, "already_called_errors": 100000, "swallowed
           "reentrant_canceller_calls": 10000, "canceller_nested_already_called": 1000,
           "histories_reentrant_cancellers": 50000, "histories_pause_chaindeferred": 30000,
           "chaindeferred_pairs_run": 10000, "cancel_no_effect_fired_paused": 5000,
-          "histories_with_debugging_on": 30000, "histories_with_deferred_subclass_levels": 30000}
+          "histories_with_debugging_on": 30000, "histories_with_deferred_subclass_levels": 30000,
+          "histories_reentrant_late_fire": 1, "reentrant_late_fires_ignored": 1,
+          "reentrant_late_fires_already_called": 1, "fires_after_ignored_reentrant_fire": 1}
 READY = True
 
 KINDS = ("none", "cb", "eb", "nothing", "raises")
@@ -107,6 +122,10 @@ CONFIGS3_RE = [("firedown", "none", "none"), ("none", "firedown", "nothing"), ("
 CONFIGS3_RE_LONG = [("none", "fireup", "none"), ("cancelnext", "cancelnext", "none")]
 CONFIGS4 = [("none", "none", "none", "none"), ("none", "none", "none", "nothing"), ("nothing", "none", "cb", "raises"),
             ("none", "cancelnext", "none", "nothing"), ("fireup", "none", "firedown", "none"), ("cbraise", "eb", "none", "none")]
+# re-entrant late fire: "none+re" / "none+reeb" = no canceller, "nothing+re" = canceller that does nothing; a
+# callback of the Deferred answers a CancelledError by d.callback() / d.errback() / d.callback() on itself
+CONFIGS2_RF = [("none+re", "none"), ("none", "none+reeb"), ("nothing+re", "none+re"), ("none+reeb", "cb")]
+CONFIGS3_RF = [("none+re", "none+reeb", "none"), ("nothing", "none+re", "nothing+re")]
 NORES = "NORESULT"
 CANCELLED = "Cancelled"
 
@@ -116,6 +135,12 @@ MAXPAUSE = 2
 CONFIGS2_EXT = [(EXT, "none", "none"), (EXT, "nothing", "none"), (EXT, "none", "nothing"), (EXT, "cb", "raises")]
 LITE = "+lite"  # the same without errback actions, one outstanding pause, no pausing of the last Deferred
 CONFIGS3_EXT = [(LITE, "none", "none", "none"), (LITE, "none", "nothing", "nothing")]
+CONFIGS2_EXT_RF = [(EXT, "none+re", "none+reeb")]
+_RF_ALL = set(CONFIGS2_RF + CONFIGS3_RF + CONFIGS2_EXT_RF)
+
+
+def nocanceller(kind):
+    return kind in ("none", "none+re", "none+reeb")
 
 
 def split(cfg):
@@ -216,13 +241,17 @@ class World:
         self.log = []        # real events of the current action
         self.bad = False
         D = _SUBCLS[0] or tw["D"]
-        self.ds = [D(self._canceller(k)) if cfg[k] != "none" else D() for k in range(n)]
+        self.ds = [D() if nocanceller(cfg[k]) else D(self._canceller(k)) for k in range(n)]
         for k, d in enumerate(self.ds):
             d.addBoth(self._rec("rec", k))
+            if cfg[k].endswith(("+re", "+reeb")):
+                d.addBoth(self._refire(k))
         # model
         self.ms = ["U"] * n
         self.res = [NORES] * n
-        self.queue = [["rec"] for _ in range(n)]   # "rec" | "wait" | "after" | ("cont", waiter)
+        self.queue = [["rec", "refire"] if cfg[k].endswith(("+re", "+reeb")) else ["rec"] for k in range(n)]
+        # "rec" | "refire" | "wait" | "after" | ("cont", waiter) | ("chain", target)
+        self.refired = [False] * n                 # the re-entrant late fire of d_k was ignored
         self.waiting = [False] * n                 # d_k waits on d_{k+1}
         self.waitused = [False] * n                # wait_k or chn_k used
         self.upaused = [0] * n                     # pauses made by the history
@@ -251,6 +280,24 @@ class World:
             self.log.append((name, k, self.rr(x)))
             return x
         return rec
+
+    def _refire(self, k):
+        """A callback of d_k that answers CancelledError by firing d_k itself, then passes the failure on."""
+        def refire(x):
+            tw = self.tw
+            if isinstance(x, tw["F"]) and x.check(tw["CE"]):
+                tag = "r%d.%d" % (k, self.step)
+                try:
+                    if self.cfg[k].endswith("+reeb"):
+                        self.ds[k].errback(_E(tag))
+                    else:
+                        self.ds[k].callback(_V(tag))
+                except tw["ACE"]:
+                    self.log.append(("refire", k, "AlreadyCalledError"))
+                else:
+                    self.log.append(("refire", k, None))
+            return x
+        return refire
 
     def _canceller(self, k):
         def canceller(dd):
@@ -305,6 +352,15 @@ class World:
             it = q.pop(0)
             if it == "rec" or it == "after":
                 self.exp.append((it, k, self.res[k]))
+            elif it == "refire":
+                if self.res[k] == CANCELLED:
+                    r = self._fire(k, ("V", "r%d.%d" % (k, self.step)))   # d_k is fired: ignored (S) or refused (F)
+                    self.exp.append(("refire", k, r))
+                    if r is None:
+                        self.refired[k] = True
+                        _bump("reentrant_late_fires_ignored")
+                    else:
+                        _bump("reentrant_late_fires_already_called")
             elif it == "wait":
                 j = k + 1
                 if self.ms[j] != "U" and not self.waiting[j] and not self.upaused[j]:
@@ -339,6 +395,8 @@ class World:
             _bump("swallowed_late_results")
             return None
         _bump("already_called_errors")
+        if self.refired[k]:
+            _bump("fires_after_ignored_reentrant_fire")
         return "AlreadyCalledError"
 
     def _cancel(self, k, boomed):
@@ -353,7 +411,7 @@ class World:
             return False
         kind = self.cfg[k]
         tag = "c%d.%d" % (k, self.step)
-        if kind == "none":
+        if nocanceller(kind):
             self.ms[k] = "S"
             self._deliver(k, CANCELLED)
             return False
@@ -476,7 +534,19 @@ class World:
         else:
             n_exp = sum(1 for e in self.exp if e[0] == "canceller")
             n_got = sum(1 for e in self.log if e[0] == "canceller")
-            if verb == "cancel" and self.fwd >= 2 and not self.log:
+            rf_exp = [e for e in self.exp if e[0] == "refire"]
+            rf_got = [e for e in self.log if e[0] == "refire"]
+            if rf_exp != rf_got and len(rf_exp) == len(rf_got):
+                i = next(i for i in range(len(rf_exp)) if rf_exp[i] != rf_got[i])
+                if rf_exp[i][1] == rf_got[i][1] and rf_exp[i][2] is None:
+                    key, what = "late-fire-during-cancel-not-ignored", (
+                        "the one callback/errback made on a Deferred (by one of its own callbacks, reacting to the "
+                        "CancelledError) while its canceller-less cancel() was still running raised AlreadyCalledError")
+                else:
+                    key, what = "late-fire-during-cancel-ignored-wrongly", (
+                        "a callback/errback made on an already fired Deferred by one of its own callbacks was "
+                        "silently ignored although no canceller-less cancel() of that Deferred preceded it")
+            elif verb == "cancel" and self.fwd >= 2 and not self.log:
                 key, what = "nested-cancel-not-forwarded", ("cancel() on a fired Deferred waiting on a fired Deferred that itself "
                                                             "waits on an outstanding one had no effect")
             elif n_exp != n_got:
@@ -580,9 +650,10 @@ def plan(ctx):
     """[(configs, length)] enumerated unpruned, and the exploration depth."""
     scale = float(os.environ.get("VERIF_SCALE", "1"))
     if ctx.quick or scale < 1:  # smoke runs of the thorough tier use the quick plan
-        return [(CONFIGS2, 5), (CONFIGS2_LONG, 6), (CONFIGS3[:3], 5), (CONFIGS3_RE, 4), (CONFIGS2_EXT, 4), (CONFIGS3_EXT, 4)], 12, True
+        return [(CONFIGS2, 5), (CONFIGS2_LONG, 6), (CONFIGS3[:3], 5), (CONFIGS3_RE, 4), (CONFIGS2_EXT, 4), (CONFIGS3_EXT, 4),
+                (CONFIGS2_RF, 4), (CONFIGS3_RF, 4), (CONFIGS2_EXT_RF, 4)], 12, True
     return [(CONFIGS2, 6), (CONFIGS2_LONG, 7), (CONFIGS3, 6), (CONFIGS3_RE, 5), (CONFIGS3_RE_LONG, 6), (CONFIGS4[:2], 5),
-            (CONFIGS2_EXT, 5), (CONFIGS3_EXT, 5)], 16, True
+            (CONFIGS2_EXT, 5), (CONFIGS3_EXT, 5), (CONFIGS2_RF, 5), (CONFIGS3_RF, 5), (CONFIGS2_EXT_RF, 4)], 16, True
 
 
 def explore_configs(quick=False):
@@ -596,6 +667,7 @@ def explore_configs(quick=False):
         if c not in out:
             out.append(c)
     out += CONFIGS3_RE + (CONFIGS4[:1] + CONFIGS4[3:4] if quick else CONFIGS4)
+    out += CONFIGS2_RF + CONFIGS3_RF + CONFIGS2_EXT_RF
     out += (CONFIGS2_EXT[:2] + CONFIGS3_EXT[:1]) if quick else (CONFIGS2_EXT + CONFIGS3_EXT + [(EXT, "raises", "nothing"), (EXT, "eb", "cb")])
     return out
 
@@ -636,6 +708,8 @@ def run(ctx):
                     ctx.count("histories_pause_chaindeferred", cnt)
                 if cfg in CONFIGS3_RE:
                     ctx.count("histories_reentrant_cancellers", cnt)
+                if cfg in _RF_ALL:
+                    ctx.count("histories_reentrant_late_fire", cnt)
                 if debugging:
                     ctx.count("histories_with_debugging_on", cnt)
                 if _SUBCLS[0] is not None:
@@ -648,7 +722,8 @@ def run(ctx):
     _DEBUGGING[0] = True
     defer.setDebugging(True)
     try:
-        enumerate_spaces([(CONFIGS2, short), (CONFIGS3[:2], short), (CONFIGS2_EXT[:2], short - 1), (CONFIGS3_RE[:2], short - 1)], True)
+        enumerate_spaces([(CONFIGS2, short), (CONFIGS3[:2], short), (CONFIGS2_EXT[:2], short - 1), (CONFIGS3_RE[:2], short - 1),
+                          (CONFIGS2_RF[2:3], short - 1)], True)
         if ctx.shard == ctx.nshards - 1:
             for cfg in [("none", "none"), ("nothing", "cb"), ("none", "none", "nothing")]:
                 explore.dfs(ctx, lambda cfg=cfg: World(ctx, cfg), 10, shard_depth=0)
@@ -659,7 +734,7 @@ def run(ctx):
     # the statement says "a Deferred": a block with every level an instance of a trivial Deferred subclass
     _SUBCLS[0] = _subclass()
     try:
-        enumerate_spaces([(CONFIGS2, short), (CONFIGS3[:3], short), (CONFIGS2_EXT[:1], short - 1)], False)
+        enumerate_spaces([(CONFIGS2, short), (CONFIGS3[:3], short), (CONFIGS2_EXT[:1], short - 1), (CONFIGS2_RF[:1], short - 1)], False)
         if ctx.shard == 0:
             for cfg in [("none", "nothing"), ("none", "none", "nothing"), ("nothing", "none", "cb", "raises")]:
                 explore.dfs(ctx, lambda cfg=cfg: World(ctx, cfg), 10, shard_depth=0)
